@@ -34,12 +34,18 @@ int g_q; char g_qc;   /* ghost index: one arbitrary position of the line (instea
 /* C: the kept text is empty or starts at the first letter-range character of the line */
 #define FILTER_POST_C \
   __CPROVER_ensures(__CPROVER_return_value >= 0 ==> (filter_str[0] == '\0' || (filter_str[0] >= 'A' && filter_str[0] <= 'z')))
-/* enforcement forms: the three postcondition groups are proved in three runs (each with the loop
+/* D: the filter stops only at a line end / comment character / NUL, or when the buffer is full (99 kept characters) */
+#define FILTER_POST_D \
+  __CPROVER_ensures(__CPROVER_return_value >= 0 ==> \
+      (unfiltered_str[__CPROVER_return_value] == '\n' || unfiltered_str[__CPROVER_return_value] == '\r' || unfiltered_str[__CPROVER_return_value] == '\0' || \
+       unfiltered_str[__CPROVER_return_value] == ';' || unfiltered_str[__CPROVER_return_value] == '%' || filter_str[FILTERED_STR_LEN - 2] != '\0'))
+/* enforcement forms: the postcondition groups are proved in separate runs (each with the loop
  * invariant it needs; the conjunction in one run exhausts memory); usage form: all of them */
 int filter_assembly_str_fsa__c(const char unfiltered_str[], char filter_str[]) FILTER_PRE(__CPROVER_is_fresh, __CPROVER_is_fresh) FILTER_POST_A;
 int filter_assembly_str_fsa__cB(const char unfiltered_str[], char filter_str[]) FILTER_PRE(__CPROVER_is_fresh, __CPROVER_is_fresh) FILTER_POST_B;
 int filter_assembly_str_fsa__cC(const char unfiltered_str[], char filter_str[]) FILTER_PRE(__CPROVER_is_fresh, __CPROVER_is_fresh) FILTER_POST_C;
-int filter_assembly_str_fsa__u(const char unfiltered_str[], char filter_str[]) FILTER_PRE(__CPROVER_r_ok, __CPROVER_rw_ok) FILTER_POST_A FILTER_POST_B FILTER_POST_C;
+int filter_assembly_str_fsa__cD(const char unfiltered_str[], char filter_str[]) FILTER_PRE(__CPROVER_is_fresh, __CPROVER_is_fresh) FILTER_POST_D;
+int filter_assembly_str_fsa__u(const char unfiltered_str[], char filter_str[]) FILTER_PRE(__CPROVER_r_ok, __CPROVER_rw_ok) FILTER_POST_A FILTER_POST_B FILTER_POST_C FILTER_POST_D;
 /* usage form without group A (a caller that does not need the non-ASCII clause: fewer symbolic reads) */
 int filter_assembly_str_fsa__uBC(const char unfiltered_str[], char filter_str[]) FILTER_PRE(__CPROVER_r_ok, __CPROVER_rw_ok) FILTER_POST_B FILTER_POST_C;
 #endif
